@@ -82,6 +82,7 @@ func runCase(c Case) (int, *mismatch) {
 	stampSeen := map[*badger.Txn]bool{}
 	enq := map[*badger.Txn]bool{}
 	doneTs := map[uint64]bool{}
+	rejectedTxn := map[*badger.Txn]bool{}
 	nput := 0
 	napplied := 0
 	rec.OnEvent = func(ev vh.Event) {
@@ -94,6 +95,8 @@ func runCase(c Case) (int, *mismatch) {
 		case "orc.commit.conflict":
 			t := ev.Args[0].(*badger.Txn)
 			stamped[t], stampSeen[t] = 0, true
+		case "commit.rejected":
+			rejectedTxn[ev.Args[0].(*badger.Txn)] = true
 		case "commit.enqueued":
 			enq[ev.Args[0].(*badger.Txn)] = true
 		case "orc.doneCommit":
@@ -336,6 +339,27 @@ func runCase(c Case) (int, *mismatch) {
 				if m := checkStamp(i, s, s.U); m != nil {
 					return i, m
 				}
+			}
+		case "reject":
+			cl := clients[s.T]
+			txn := cl.txn.Load()
+			db.VerifSetBlockWrites(true)
+			if !gEnq.ReleaseG(cl.g.Load()) {
+				db.VerifSetBlockWrites(false)
+				return i, &mismatch{"harness.rejectRelease", nil}
+			}
+			ok := until(func() bool { mu.Lock(); defer mu.Unlock(); return rejectedTxn[txn] })
+			db.VerifSetBlockWrites(false)
+			if !ok {
+				return i, &mismatch{"oracle.rejectHang", nil}
+			}
+			select {
+			case r := <-cl.result:
+				if r == "ok" || r == "conflict" {
+					return i, &mismatch{"oracle.rejectResult", r}
+				}
+			case <-time.After(wait):
+				return i, &mismatch{"oracle.rejectHang", "Commit did not return after sendToWriteCh refused the request"}
 			}
 		case "put", "lastput":
 			if !batchStarted {
